@@ -106,3 +106,15 @@ claim('C17', 'Coq theorems over write-effect summaries regenerated from the sour
       'extracted model, which is a function of (construct, input, context) by construction; bytes / bytearray / memoryview / parse_stream at offsets / '
       'parse_file and build / build_stream / build_file agree. The theorem trusts the translator\'s notion of a write; thread schedules are validated, not proved.',
       'DESIGN.md 6/C17')
+claim('C04', 'Coq theorems by induction over the construct syntax (model of the emitted code vs the interpreter, parse and build) + correspondence of that model with the code compile() really emits + compiled-vs-interpreted oracles',
+      'model/Compiled.v states what each _emitparse/_emitbuild emits (unchecked io.read, loops without _index, padding by static sizeof, static '
+      'Union seeks, foreign exceptions, linked fallback). compiled_parse_agrees / compiled_build_agrees: for every construct of the fragment - all '
+      'emitted leaves with arbitrary context expressions, all linked classes, closed under 20 wrappers/composites to any depth, with the side '
+      'conditions the emitters assume (no _index in repeated elements, static size = consumed size under Padded/Aligned) - the emitted code returns '
+      'what the interpreter returns whenever the interpreter succeeds. The extracted model runs against compile().parse/.build on every case '
+      '(41k cases thorough, errors compared as errors); on the library compiled and interpreted parse/build/sizeof are compared for every construct '
+      'that takes an expression (generated integer/boolean trees over every operator, nested/outer scopes, _params/_root, len_/sum_/min_/max_/abs_, '
+      'quoted string and bytes constants) inside a host struct with a dependent probe, and for generated constructs to depth 3. Inlined expression '
+      'text is evaluated by the same eval as the interpreter in the model: that the text means the expression is C11. Eight repaired defects '
+      '(F3, F22-F28). FlagsEnum, Peek, Union with a selector and PascalString (instance-level emitter) are outside the theorem, inside the oracles.',
+      'DESIGN.md 6/C04')
